@@ -119,6 +119,42 @@ def r5_for_zip(text):
     return "".join(out), n
 
 
+def r6_for_rev(text):
+    """R6: `for x in X.iter().rev() {` -> descending index loop."""
+    n = 0
+    rx = re.compile(r"for\s+(?P<pat>\w+)\s+in\s+(?P<x>[A-Za-z_][\w\.]*?)\.iter\(\)\.rev\(\)\s*\{")
+    out, pos = [], 0
+    for m in rx.finditer(text):
+        i = _fresh()
+        x, pat = m.group("x"), m.group("pat")
+        new = "let mut %s: usize = %s.len(); while %s > 0 { %s -= 1; let %s = &%s[%s];" % (i, x, i, i, pat, x, i)
+        out.append(text[pos:m.start()])
+        out.append(_pad(m.group(0), new))
+        pos = m.end()
+        n += 1
+    out.append(text[pos:])
+    return "".join(out), n
+
+
+def r4b_for_by_value(text):
+    """R4b: `for PAT in X {` consuming a Vec -> `let mut it = vi_into_iter(X); while let
+    Some(PAT) = it.next() {` (the definition of a `for` loop: IntoIterator::into_iter + next)."""
+    n = 0
+    rx = re.compile(r"for\s+(?P<pat>\([^)]*\)|\w+)\s+in\s+(?P<x>[a-z_]\w*)\s*\{")
+    out, pos = [], 0
+    for m in rx.finditer(text):
+        if m.group("x") not in ITER_BY_VALUE_OK:
+            continue
+        i = _fresh().replace("__i", "__it")
+        new = "let mut %s = vi_into_iter(%s); while let Some(%s) = %s.next() {" % (i, m.group("x"), m.group("pat"), i)
+        out.append(text[pos:m.start()])
+        out.append(_pad(m.group(0), new))
+        pos = m.end()
+        n += 1
+    out.append(text[pos:])
+    return "".join(out), n
+
+
 def r7_for_chain(text):
     """R7: `for x in A.iter().chain(B.iter()) {` over two const tables -> index loop over A
     then B through generated accessors `A_len()/A_get(i)` (see units: literal tables)."""
@@ -235,7 +271,9 @@ def named_ret(text, name="r"):
 
 RULES = {
     "R4": r4_for_iter,
+    "R4b": r4b_for_by_value,
     "R5": r5_for_zip,
+    "R6": r6_for_rev,
     "R7": r7_for_chain,
     "R8": r8_zip_all,
     "R9": r9_format,
